@@ -134,6 +134,7 @@ type FuncVC struct {
 	ancCache      map[int]map[int]bool
 	ancMu         sync.Mutex
 	safety        bool
+	sweepNonNil   bool
 	entryFacts    []Term
 }
 
